@@ -87,6 +87,21 @@ func sortedBeforeUse(v ssa.Value, region []*ssa.BasicBlock) (bool, string) {
 					work = append(work, y)
 				}
 				continue
+			case *ssa.MakeClosure:
+				// a method value of the list (mapKeyList(keys).less) handed to the sort as its comparator
+				passedToSort := y.Referrers() != nil
+				if y.Referrers() != nil {
+					for _, cu := range *y.Referrers() {
+						if c, ok := cu.(*ssa.Call); !ok || !isSortCall(an.CallName(&c.Call)) {
+							if _, dbg := cu.(*ssa.DebugRef); !dbg {
+								passedToSort = false
+							}
+						}
+					}
+				}
+				if passedToSort {
+					continue
+				}
 			case *ssa.Store:
 				// kept in a local variable (captured by the comparator): follow its loads
 				if a, ok := y.Addr.(*ssa.Alloc); ok && y.Val == x && a.Referrers() != nil {
@@ -266,6 +281,7 @@ func flowsToPhiOutside(v ssa.Value, region []*ssa.BasicBlock) bool {
 }
 
 func runD1(p *an.Prog, r *an.Result) {
+	mapRangeProg = p
 	for _, fn := range p.Funcs {
 		if isMainPkg(fn) {
 			continue
@@ -651,7 +667,37 @@ func mapRangeCollectedAndSorted(fn *ssa.Function, it *ssa.Call) bool {
 		}
 	})
 	if sortCall == nil {
-		return false
+		// the function only collects and hands the slice back: every caller sorts it before any other use
+		if mapRangeProg == nil {
+			return false
+		}
+		retOK := true
+		an.EachInstr(fn, func(in ssa.Instruction) {
+			if ret, ok := in.(*ssa.Return); ok {
+				hit := false
+				for _, ap := range appends {
+					if an.Reaches(resultsOf(ret)[0], an.StepValue, func(v ssa.Value) bool { return v == ssa.Value(ap) }) {
+						hit = true
+					}
+				}
+				// (an early return of the empty slice made before the loop is fine)
+				if !hit {
+					if _, isMk := an.Strip(resultsOf(ret)[0]).(*ssa.MakeSlice); !isMk {
+						retOK = false
+					}
+				}
+			}
+		})
+		sites := callSitesOf(mapRangeProg, fn)
+		if !retOK || len(sites) == 0 {
+			return false
+		}
+		for _, site := range sites {
+			if ok, _ := sortedBeforeUse(site, nil); !ok {
+				return false
+			}
+		}
+		return true
 	}
 	okRet := true
 	an.EachInstr(fn, func(in ssa.Instruction) {
@@ -661,3 +707,7 @@ func mapRangeCollectedAndSorted(fn *ssa.Function, it *ssa.Call) bool {
 	})
 	return okRet
 }
+
+// mapRangeProg is the program the D1 run is looking at (set by runD1): call sites of a collecting helper
+// are looked up in it.
+var mapRangeProg *an.Prog
